@@ -68,6 +68,7 @@ def clock_actions(thorough):
     acts.append(('fx_adv_seconds', 3))
     acts.append(('fx_adv_delta', 2))
     acts.append(('fx_exit', None))
+    acts.append(('fx_reuse', None))        # the fixture object that was cleaned up is set up again
     return acts
 
 
@@ -75,6 +76,8 @@ class RefClock:
     def __init__(self):
         self.now = None          # overridden instant or None
         self.fx = False
+        self.fx_init = None      # instant the live fixture was constructed for
+        self.prev_init = None    # ... the last cleaned-up fixture
 
     def apply(self, act):
         kind, i = act
@@ -82,12 +85,18 @@ class RefClock:
             self.now = INSTANTS[i]
             if kind == 'fx_enter':
                 self.fx = True
+                self.fx_init = INSTANTS[i]
+        elif kind == 'fx_reuse':
+            self.now = self.prev_init
+            self.fx, self.fx_init = True, self.prev_init
         elif kind in ('adv_delta', 'fx_adv_delta'):
             self.now = self.now + DELTAS[i]
         elif kind in ('adv_seconds', 'fx_adv_seconds'):
             self.now = self.now + TD(0, SECONDS[i])
         elif kind in ('clear', 'fx_exit'):
             self.now = None
+            if kind == 'fx_exit':
+                self.prev_init = self.fx_init
             self.fx = False
 
 
@@ -140,6 +149,8 @@ def enabled(node):
             continue
         if kind == 'fx_enter' and ref.fx:
             continue
+        if kind == 'fx_reuse' and (ref.fx or ref.prev_init is None):
+            continue
         out.append(act)
     return out
 
@@ -148,14 +159,20 @@ def impl_canon(timeutils, fx):
     """Everything the implementation remembers about the clock: the override
     attribute and whatever the live fixture object carries."""
     parts = [repr(timeutils.utcnow.override_time)]
-    if fx is not None:
-        for k in sorted(vars(fx)):
-            v = vars(fx)[k]
+    for tag, f in (('live', fx), ('cleaned-up', _PREV[0] if _PREV[0] is not fx else None)):
+        if f is None:
+            continue
+        parts.append(tag)
+        for k in sorted(vars(f)):
+            v = vars(f)[k]
             if k.startswith('_cleanups') or k in ('_details', '_detail_sources') or callable(v):
                 continue
             if isinstance(v, (DT, TD, int, float, str, bool, type(None))):
                 parts.append('%s=%r' % (k, v))
     return '|'.join(parts)
+
+
+_PREV = [None]      # the fixture object cleaned up last (within one history replay)
 
 
 def do_act(timeutils, fixture, fx, act):
@@ -179,7 +196,11 @@ def do_act(timeutils, fixture, fx, act):
             fx.advance_time_delta(DELTAS[i])
         elif kind == 'fx_exit':
             fx.cleanUp()
+            _PREV[0] = fx
             fx = None
+        elif kind == 'fx_reuse':
+            fx = _PREV[0]
+            fx.setUp()
         return fx, None
     except OverflowError:
         return fx, 'OverflowError'
@@ -196,6 +217,7 @@ def clock_step(node, act):
     ref = copy.copy(node.ref)
     timeutils.utcnow.override_time = None
     fx = None
+    _PREV[0] = None
     for a in node.hist:
         fx, _ = do_act(timeutils, fixture, fx, a)
     try:
@@ -244,7 +266,8 @@ def _clock_job(job):
         fails.append({'history': [list(a) for a in node.hist + (act,)], 'problem': problem})
 
     n = seq.bfs([n1], acts, clock_step,
-                lambda nd: (nd.ref.now, nd.ref.fx, getattr(nd.ref, 'impl', None)), depth - 1,
+                lambda nd: (nd.ref.now, nd.ref.fx, nd.ref.fx_init, nd.ref.prev_init,
+                            getattr(nd.ref, 'impl', None)), depth - 1,
                 on_fail, counters, enabled=enabled)
     timeutils.utcnow.override_time = None
     return dict(counters), fails[:20], n
@@ -266,11 +289,36 @@ def set_tz(tz):
     time.tzset()
 
 
+class Floating(datetime.tzinfo):
+    """A tzinfo that does not know its offset: utcoffset() is None, which is Python's
+    definition of a naive datetime ('floating' local time of calendar applications)."""
+    def utcoffset(self, dt):
+        return None
+
+    def dst(self, dt):
+        return None
+
+    def tzname(self, dt):
+        return 'floating'
+
+
 def _norm_case(vals, acc):
     from oslo_utils import timeutils
     tz, inst, off = vals
     set_tz(tz)
     try:
+        if off == 'floating':
+            arg = inst.replace(tzinfo=Floating())
+            acc.nontrivial('floating%r%s' % (inst, tz))
+            try:
+                got = timeutils.normalize_time(arg)
+            except Exception as e:
+                got = ('raises', type(e).__name__)
+            if got is not arg and not (isinstance(got, DT) and got.replace(tzinfo=None) == inst):
+                acc.fail('normalize-naive', {'input': repr(arg), 'got': repr(got), 'TZ': tz,
+                                             'note': 'utcoffset() is None: a naive datetime'},
+                         {'norm': [inst.isoformat(), 'floating', tz]})
+            return
         if off is None:
             try:
                 got = timeutils.normalize_time(inst)
@@ -554,7 +602,7 @@ def run(ctx):
                      {'history': f['history'], 'problem': f['problem']},
                      {'clock': f['history']})
     rep.count('evaluations', rep.counters['transitions'])
-    offs = [None] + OFFSETS + ZONES
+    offs = [None, 'floating'] + OFFSETS + ZONES
     E.run(rep, 'normalize', [TZS, NORM_INSTANTS, offs], _norm_case)
     ds = MARGINS
     E.run(rep, 'comparisons', [TZS if ctx.thorough else TZS[:2], CMP_NOWS if ctx.thorough else CMP_NOWS[:2],
@@ -596,7 +644,8 @@ def replay(payload):
     if 'norm' in payload:
         iso, off, tz = payload['norm']
         inst = DT.fromisoformat(iso)
-        o = None if off is None else eval(off, {'datetime': datetime})   # repr of timedelta / zone name
+        o = None if off is None else 'floating' if off == 'floating' else \
+            eval(off, {'datetime': datetime})   # repr of timedelta / zone name
         _norm_case((tz, inst, o), acc)
     elif 'huge' in payload:
         d, sec, us, thr, form = payload['huge']
